@@ -84,6 +84,7 @@ Record LI (mx : Z) (k : call) : Prop := mkLI {
   li_ctx : ctx_phase (pc k) = true -> ucancel k = true;
   li_entered : entered k = false -> pre_entered (pc k) = true;
   li_entered1 : pc k = PIdle -> entered k = false;
+  li_nosend : entered k = false -> nsends k = 0;
   li_rejected : pc_ret (pc k) = Some RRejected -> entered k = false /\ is_returned (pc k) = true;
   li_retryable : match pc k with
                  | PSettled RClosedRetryable | PReturned RClosedRetryable => selfclaim k = true
@@ -456,11 +457,11 @@ Proof.
     + destruct (Hoth x n) as [O1 O2]. intros [A | [ok A]]; [destruct (O1 A) | destruct (O2 _ A)].
 Qed.
 
-Lemma GI_calls_soft : forall mx s cs' am' fc ec us,
+Lemma GI_calls_soft : forall mx s cs' am' fc ec us wl cr,
   GI mx s -> (forall c, LI mx (cs' c)) -> (forall c, core_pres (calls s c) (cs' c)) ->
-  GI mx (mkState cs' (dels s) (rpcm s) am' fc ec (maxr s) us).
+  GI mx (mkState cs' (dels s) (rpcm s) am' fc ec (maxr s) us wl cr).
 Proof.
-  intros mx s cs' am' fc ec us [Gm Gl Gd Gr Gw] HL HC. constructor; auto.
+  intros mx s cs' am' fc ec us wl cr [Gm Gl Gd Gr Gw] HL HC. constructor; auto.
   - intros d. apply DI_frame with (s := s); auto.
   - intros m c Hm. cbn in Hm. destruct (Gr _ _ Hm) as [R1 R2].
     destruct (HC c) as [A _]. destruct (A R2). cbn. split; congruence.
@@ -507,7 +508,8 @@ Proof.
     assert (HG' : GI mx (apply_geff s c k' g)).
     { eapply step_caller_GI; eauto. intros m h ->. eapply caller_geff; eauto. }
     destruct e; inversion H; subst; auto.
-    destruct (used s m); inversion H; subst. destruct HG'. constructor; auto. }
+    - destruct (used s m); inversion H; subst. destruct HG'. constructor; auto.
+    - destruct HG'. constructor; auto. }
   pose proof HG as [Gm Gl Gd Gr Gw].
   destruct e; try discriminate Ec; cbv zeta in H.
   - (* NLookup *)
@@ -622,6 +624,7 @@ Proof.
     destruct (armed (calls s c)); inversion H; subst. apply GI_call_soft; auto. apply LI_fire; auto. core_triv.
   - inversion H; subst. constructor; auto.
   - inversion H; subst. constructor; auto.
+  - match type of H with (if ?b then _ else _) = _ => destruct b end; inversion H; subst. constructor; auto.
 Qed.
 
 Theorem run_GI : forall mx tr s s', 1 <= mx -> GI mx s -> run s tr = Some s' -> GI mx s'.
@@ -818,15 +821,16 @@ Proof.
   repeat split; auto; discriminate.
 Qed.
 
-Lemma post_shape : forall (s s1 s' : state) (e : ev),
+Lemma post_shape : forall (s s1 s' : state) (c : Z) (e : ev),
   match e with
-  | CEntered _ m _ _ => if used s m then None else Some (mark_used s1 m)
+  | CEntered _ m _ _ => if used s m then None else Some (set_wgl (mark_used s1 m) (c :: wgl (mark_used s1 m)))
+  | CReturn _ _ _ _ _ => Some (set_wgl s1 (zremove c (wgl s1)))
   | _ => Some s1
   end = Some s' ->
   calls s' = calls s1 /\ dels s' = dels s1 /\ rpcm s' = rpcm s1 /\ ackm s' = ackm s1 /\
   fclosed s' = fclosed s1 /\ eclosed s' = eclosed s1 /\ maxr s' = maxr s1.
 Proof.
-  intros s s1 s' e H. destruct e; try (inversion H; subst; repeat split; reflexivity).
+  intros s s1 s' c e H. destruct e; try (inversion H; subst; repeat split; reflexivity).
   destruct (used s m); inversion H; subst. repeat split; reflexivity.
 Qed.
 
@@ -836,7 +840,7 @@ Proof.
   destruct (ev_caller e) as [c0|] eqn:Ec.
   { destruct (caller (maxr s) (fclosed s) (eclosed s) (isNone (ackm s (mid (calls s c0)))) c0 (calls s c0) e)
       as [[k' g]|] eqn:Hc; try discriminate H.
-    destruct (post_shape _ _ _ _ H) as (A & _). rewrite A.
+    destruct (post_shape _ _ _ _ _ H) as (A & _). rewrite A.
     rewrite calls_apply. destruct (Z.eqb_spec c c0); subst; [eapply caller_ident; eauto | intros ?; auto]. }
   assert (R : forall k, ident_pres k k) by (intros k Hn; auto).
   destruct e; try discriminate Ec; cbv zeta in H;
